@@ -267,3 +267,28 @@ B('c09-cumprod-name', 'C09', TRANS, "    return apply_along_axis(a, 'cumprod', a
 B('c09-cum-branch', 'C09', TRANS, "        newaxes = obj.axes.copy() \n\n    # diff: reduce axis size by one", "        newaxes = obj.axes[1:] \n\n    # diff: reduce axis size by one", 'cumulative result loses an axis')
 N('c09-n-rename', 'C09', TRANS, "oldaxis", "previous_axis", 'rename', all=True)
 N('c09-n-midpoint-form', 'C09', TRANS, "axisvalues = 0.5*(oldaxis.values[:-1]+oldaxis.values[1:])", "axisvalues = (oldaxis.values[:-1]+oldaxis.values[1:])/2.", 'other spelling of the midpoint')
+
+# ------------------------------------------------------------------------------- C10
+B('c10-axes-other-perm', 'C10', RESH, "    newaxes = [self.axes[i] for i in newshape]\n    return self._constructor(result, newaxes, **self.attrs)", "    newaxes = [self.axes[i] for i in sorted(newshape)]\n    return self._constructor(result, newaxes, **self.attrs)", 'axes not permuted')
+B('c10-values-not-permuted', 'C10', RESH, "    result = self.values.transpose(newshape)", "    result = self.values.transpose()", 'values reversed, axes permuted')
+B('c10-transpose-attrs', ['C10', 'C16'], RESH, "    newaxes = [self.axes[i] for i in newshape]\n    return self._constructor(result, newaxes, **self.attrs)", "    newaxes = [self.axes[i] for i in newshape]\n    return self._constructor(result, newaxes)", 'metadata lost')
+B('c10-swapaxes-same', 'C10', RESH, "        if i == axis1:\n            newshape.append(axis2)\n        elif i == axis2:\n            newshape.append(axis1)", "        if i == axis1:\n            newshape.append(axis2)\n        elif i == axis2:\n            newshape.append(axis2)", 'not a permutation')
+B('c10-swapaxes-unresolved', 'C10', RESH, "    pos, _ = self._get_axes_info([axis1, axis2])\n    axis1, axis2 = pos  # axis positions", "    pos, _ = self._get_axes_info([axis1, axis2])", 'names compared with positions')
+B('c10-rollaxis-moveaxis', 'C10', RESH, "    newshape = np.rollaxis(fake, axis, start).shape", "    newshape = np.moveaxis(fake, axis, start).shape", 'seeded C10-1')
+B('c10-rollaxis-unresolved', 'C10', RESH, "    axis, _ = self._get_axis_info(axis) # position\n", "", 'axis name passed to numpy')
+B('c10-newaxis-pos', 'C10', RESH, "    axes.insert(pos, axis)", "    axes.insert(pos+1, axis)", 'axis inserted one position later than the values dimension')
+B('c10-newaxis-minus1', 'C10', RESH, "    if pos == -1: pos = len(self.dims)", "    if pos == -1: pos = len(self.dims) - 1", '')
+B('c10-newaxis-guard', 'C10', RESH, "    if name in self.dims:\n        raise ValueError(\"dimension already present: \"+name)\n", "", 'duplicate dimension')
+B('c10-squeeze-other-axis', 'C10', RESH, "        res = self.values.squeeze(idx)\n        newaxes = [ax for ax in self.axes if ax.name != name or ax.size != 1] ", "        res = self.values.squeeze(idx)\n        newaxes = [ax for ax in self.axes if ax.size != 1] ", 'values lose one singleton, axes lose all')
+B('c10-squeeze-nonsingleton', 'C10', RESH, "        newaxes = [ax for ax in self.axes if ax.name != name or ax.size != 1] ", "        newaxes = [ax for ax in self.axes if ax.name != name] ", '')
+B('c10-repeat-position', 'C10', RESH, "    newaxes[idx] = newaxis\n", "    newaxes[0] = newaxis\n", 'relabels axis 0')
+B('c10-repeat-count', 'C10', RESH, "    newvalues = self.values.repeat(np.size(values), idx)", "    newvalues = self.values.repeat(np.size(values) - 1, idx)", '')
+B('c10-repeat-guard', 'C10', RESH, "    if self.axes[idx].size != 1:\n        raise ValueError(\"can only repeat singleton axes\")\n", "", 'repeat of a non-singleton axis')
+B('c10-broadcast-positional', 'C10', RESH, "            newobj = newobj.repeat(newaxis.values, axis=newaxis.name)", "            newobj = newobj.repeat(newaxis.values, axis=0)", 'repeats by position')
+B('c10-broadcast-guard', 'C10', RESH, "        if newobj.axes[newaxis.name].size == 1 and newaxis.size != 1:", "        if newobj.axes[newaxis.name].size == 1:", 'singleton target repeated as well (label lost? still size 1)')
+B('c10-reshape-set-exit', ['C10', 'C11'], RESH, "    if tuple(newdims) == self.dims:\n        return self", "    if set(newdims) == set(self.dims):\n        return self", 'seeded C10-2')
+B('c10-aligndims-first', 'C10', ALIGN, "    newdims = get_dims(*arrays) \n", "    newdims = get_dims(arrays[0]) \n", 'only the first array dims')
+B('c10-broadcast-arrays-nocheck', 'C10', ALIGN, "    # now broadcast each DimArray along commmon axes\n    newarrays = []\n    for o in arrays:\n        o = o.broadcast(axes)", "    # now broadcast each DimArray along commmon axes\n    newarrays = []\n    for o in arrays:\n        o = o.broadcast(arrays[0].axes)", 'broadcast onto the first array axes')
+B('c10-getaxes-no-raise', ['C10', 'C12'], ALIGN, "            if not (axis.size == 1 or np.all(axis.values==common_axis.values)):\n                raise ValueError(\"axes are not aligned\")", "            if not (axis.size == 1 or axis.size == common_axis.size):\n                raise ValueError(\"axes are not aligned\")", 'only sizes compared')
+N('c10-n-rename', 'C10', RESH, "newshape", "perm", 'rename', all=True)
+N('c10-n-squeeze-cond', 'C10', RESH, "        newaxes = [ax for ax in self.axes if ax.name != name or ax.size != 1] ", "        newaxes = [a for a in self.axes if a.name != name or a.size != 1] ", 'rename comprehension variable')
